@@ -1878,6 +1878,8 @@ def concretize(eng, t, env):
         r = _static_read(eng.P, sub)
         if r is not None:
             return r
+        if k == "index" and sub[1][0] == "array" and is_const(sub[2]) and 0 <= sub[2][1] < len(sub[1][1]):
+            return sub[1][1][sub[2][1]]         # element of a concrete array / slice
         if sub != t:
             t = sub
             if t in env:
